@@ -162,6 +162,15 @@ class FStr:
         return f"<fstr {self.skeleton}>"
 
 
+class OMap:
+    """Symbolic dict with object values (see types.TObjMap)."""
+
+    def __init__(self, name, val_type):
+        self.name = name
+        self.val_type = val_type
+        self.lookups = []  # [(key, result)] in program order, for specifications
+
+
 class SFun:
     """Uninterpreted pure callable (input of the function under verification)."""
 
